@@ -200,6 +200,13 @@ func (c *genCtx) ty() *Ty {
 			if len(cands) == 0 {
 				continue
 			}
+			// generic structs with several type parameters are the interesting field types (argument order of the
+			// instance function): three times the weight
+			for _, o := range append([]*Struct{}, cands...) {
+				if len(o.TParams) >= 2 {
+					cands = append(cands, o, o)
+				}
+			}
 			o := cands[r.Intn(len(cands))]
 			t = structTy(o, instArgs(o))
 		case "money", "pt":
@@ -493,6 +500,13 @@ func GenStruct(r *Rng, pkg *Package, name string) *Struct {
 			st.TParams[i].InstTy = instTy(st.TParams[i].Inst)
 		}
 		pickClasses()
+		if len(st.TParams) >= 2 && r.Intn(2) == 0 {
+			// the fields mention the type parameters in an order different from their declaration (instance
+			// arguments of a derived generic instance function must still follow the declaration)
+			st.Fields = append(st.Fields,
+				Field{Name: "rvb", Ty: &Ty{K: "tparam", Name: st.TParams[len(st.TParams)-1].Name}},
+				Field{Name: "rva", Ty: &Ty{K: "tparam", Name: st.TParams[0].Name}})
+		}
 		c.fields(1+r.Intn(5), false, false)
 	case "recursive":
 		valueAnn()
